@@ -199,7 +199,9 @@ impl Cb {
                 | Cb::Freeze(_)
                 | Cb::DeadBand(..)
                 | Cb::WriteAttr
-        )
+                | Cb::BeginFragment
+                | Cb::EndFragment
+        ) || matches!(self, Cb::Info(s) if s == "clear_restart_iin")
     }
 }
 
